@@ -265,6 +265,8 @@ pub struct RefParse {
     pub residue: usize,
     /// byte offsets (into the input) where each item ends
     pub item_ends: Vec<usize>,
+    /// position after the last complete frame of any kind
+    pub frames_end: usize,
 }
 
 /// Parse as many complete items as possible.
@@ -276,6 +278,7 @@ pub fn parse_stream(data: &[u8], strict: Strictness) -> RefParse {
         error: None,
         residue: 0,
         item_ends: vec![],
+        frames_end: 0,
     };
     let mut p = 0usize;
     if strict.greeting {
@@ -293,6 +296,7 @@ pub fn parse_stream(data: &[u8], strict: Strictness) -> RefParse {
                 out.items.push(RefItem::Greeting(g));
                 p = GREETING_LEN;
                 out.consumed = p;
+                out.frames_end = p;
                 out.item_ends.push(p);
             }
         }
@@ -343,6 +347,7 @@ pub fn parse_stream(data: &[u8], strict: Strictness) -> RefParse {
                 None => out.items.push(RefItem::MalformedCommand(body.to_vec())),
             }
             p = end;
+            out.frames_end = p;
             if cur.is_empty() {
                 out.consumed = p;
             }
@@ -351,6 +356,7 @@ pub fn parse_stream(data: &[u8], strict: Strictness) -> RefParse {
         }
         cur.push(body.to_vec());
         p = end;
+        out.frames_end = p;
         if !more {
             out.items.push(RefItem::Message(std::mem::take(&mut cur)));
             out.consumed = p;
